@@ -782,6 +782,11 @@ package raft
 //@     && r.uncommittedSize == old(r.uncommittedSize) && r.electionElapsed == old(r.electionElapsed) && r.heartbeatElapsed == old(r.heartbeatElapsed)
 //@     && r.isLearner == old(r.isLearner) && r.randomizedElectionTimeout == old(r.randomizedElectionTimeout)
 
+//@ pred raft_kept_but_isLearner(r *raft) := r.Term == old(r.Term) && r.Vote == old(r.Vote) && r.state == old(r.state) && r.lead == old(r.lead) && r.id == old(r.id)
+//@     && r.step == old(r.step) && r.tick == old(r.tick) && r.electionElapsed == old(r.electionElapsed) && r.heartbeatElapsed == old(r.heartbeatElapsed)
+//@     && r.raftLog == old(r.raftLog) && r.readOnly == old(r.readOnly) && r.leadTransferee == old(r.leadTransferee) && r.pendingConfIndex == old(r.pendingConfIndex)
+//@     && r.uncommittedSize == old(r.uncommittedSize) && r.randomizedElectionTimeout == old(r.randomizedElectionTimeout)
+
 //@ func raft.raft.hasLeader
 //@   pure
 //@   requires r != nil
@@ -1017,6 +1022,12 @@ package raft
 //@     && r.trk.Progress[id].State == tracker.StateProbe && r.trk.Progress[id].PendingSnapshot == 0 && !r.trk.Progress[id].MsgAppFlowPaused
 //@     && !r.trk.Progress[id].RecentActive && r.trk.Progress[id].sentCommit == 0 && r.trk.Progress[id].Inflights.count == 0
 
+//@ -- the membership side of the tracker is not touched by role changes: configuration, own learner flag, key set of the progress
+//@ -- map, the records' identity and their learner flag
+//@ pred membership_kept(r *raft) := r.trk.Voters[0] == old(r.trk.Voters[0]) && r.trk.Voters[1] == old(r.trk.Voters[1]) && r.trk.Learners == old(r.trk.Learners)
+//@     && r.trk.LearnersNext == old(r.trk.LearnersNext) && r.trk.AutoLeave == old(r.trk.AutoLeave) && r.isLearner == old(r.isLearner)
+//@     && (forall id uint64 :: {has(r.trk.Progress, id)} has(r.trk.Progress, id) == old(has(r.trk.Progress, id)))
+//@     && (forall id uint64 :: {r.trk.Progress[id]} has(r.trk.Progress, id) ==> r.trk.Progress[id] == old(r.trk.Progress[id]) && r.trk.Progress[id].IsLearner == old(r.trk.Progress[id].IsLearner))
 //@ func raft.raft.reset [C07 C02 C06 C10 C16]
 //@   requires wf_raft(r)
 //@   requires #term-not-lower [C07] term >= r.Term && term < 9223372036854775808
@@ -1036,6 +1047,7 @@ package raft
 //@   ensures #kept r.state == old(r.state) && r.id == old(r.id) && r.raftLog == old(r.raftLog) && r.msgs == old(r.msgs) && r.msgsAfterAppend == old(r.msgsAfterAppend)
 //@        && r.raftLog.committed == old(r.raftLog.committed) && r.trk.Progress == old(r.trk.Progress) && log_last(r.raftLog) == old(log_last(r.raftLog))
 //@   ensures #wf-but-lead wf_raftLog(r.raftLog) && wf_readOnly(r.readOnly) && wf_trk(&r.trk) && trk_distinct(&r.trk) && hs_monotone(r)
+//@   ensures #membership-kept [C10] membership_kept(r)
 
 //@ -- typestate: the step/tick function values correspond to the role (become* establish it; Step and Tick dispatch on it)
 //@ pred typestate(r *raft) := (r.state == StateFollower ==> r.step == funcid("raft.stepFollower") && r.tick == funcid("raft.raft.tickElection"))
@@ -1051,6 +1063,7 @@ package raft
 //@   ensures #cleared r.electionElapsed == 0 && r.leadTransferee == 0 && r.pendingConfIndex == 0 && r.uncommittedSize == 0 && len(r.trk.Votes) == 0
 //@   ensures #kept r.id == old(r.id) && r.raftLog == old(r.raftLog) && r.msgs == old(r.msgs) && r.msgsAfterAppend == old(r.msgsAfterAppend)
 //@        && r.raftLog.committed == old(r.raftLog.committed) && r.trk.Progress == old(r.trk.Progress) && log_last(r.raftLog) == old(log_last(r.raftLog))
+//@   ensures #membership-kept [C10] membership_kept(r)
 //@   ensures #wf wf_raft(r) && hs_monotone(r) && typestate(r)
 
 //@ func raft.raft.becomeCandidate [C02 C07 C17 C14]
@@ -1239,18 +1252,49 @@ package raft
 //@ func raft.assertConfStatesEquivalent [C14]
 //@   trusted
 
-//@ -- switchToConfig installs (cfg, trk); on a non-leader nothing else changes. TODO verify the body (leader part: maybeCommit, bcastAppend, Visit).
-//@ func raft.raft.switchToConfig [C10 C13]
-//@   trusted
+//@ -- switchToConfig installs (cfg, trk). On a non-leader nothing else changes. A leader that lost its membership may step down
+//@ -- (same term; reset keeps the progress map and replaces the vote map); a remaining leader re-evaluates the commit index under
+//@ -- the new quorum and probes the peers; the hard state only moves forward in every case.
+//@ func raft.raft.switchToConfig [C10 C13 C06 C07 C14]
+//@   frame raftpb.Message:
+//@   frame elems *raftpb.Message: r.msgs, r.msgsAfterAppend
 //@   requires #wf wf_raft(r)
 //@   requires #trk-wf progressMap_wf(trk)
+//@   requires #a-arith r.trk.MaxInflight >= 1
+//@   requires #leader-progress-in-log [C14] r.state == StateLeader ==> (forall id uint64 :: has(trk, id) ==> progress_in_log(r, trk[id]))
+//@   reveal wf_trk, trk_distinct
+//@   after tracker.ProgressTracker.ConfState assert #installed-wf wf_raft(r) && r.trk.Progress == trk && (old(reads_wf(r)) ==> reads_wf(r)) && (r.state == StateLeader ==> wf_leader(r))
+//@   after raft.raft.maybeCommit assert #cs-kept-1 ids_of(cs.Voters, cfg.Voters[0]) && ids_of(cs.VotersOutgoing, cfg.Voters[1]) && ids_of(cs.Learners, cfg.Learners) && ids_of(cs.LearnersNext, cfg.LearnersNext)
+//@   after raft.raft.bcastAppend assert #cs-kept-2 ids_of(cs.Voters, cfg.Voters[0]) && ids_of(cs.VotersOutgoing, cfg.Voters[1]) && ids_of(cs.Learners, cfg.Learners) && ids_of(cs.LearnersNext, cfg.LearnersNext)
+//@   after quorum.JointConfig.IDs assert #cs-kept-3 ids_of(cs.Voters, cfg.Voters[0]) && ids_of(cs.VotersOutgoing, cfg.Voters[1]) && ids_of(cs.Learners, cfg.Learners) && ids_of(cs.LearnersNext, cfg.LearnersNext)
+//@   after raft.raft.abortLeaderTransfer assert #cs-kept-4 ids_of(cs.Voters, cfg.Voters[0]) && ids_of(cs.VotersOutgoing, cfg.Voters[1]) && ids_of(cs.Learners, cfg.Learners) && ids_of(cs.LearnersNext, cfg.LearnersNext)
+//@   visit 1 invariant #state wf_raft(r) && raft_kept_but_isLearner(r) && (r.msgs.arr == old(r.msgs.arr) || fresh(r.msgs.arr)) && r.msgsAfterAppend == old(r.msgsAfterAppend)
+//@        && r.raftLog.committed == old(r.raftLog.committed) && len(r.msgs) >= old(len(r.msgs)) && log_last(r.raftLog) == old(log_last(r.raftLog)) && r.state == StateLeader
+//@        && r.trk.Progress == trk && r.isLearner == (has(trk, r.id) && trk[r.id].IsLearner)
+//@   visit 1 invariant #in-log wf_leader(r)
+//@   visit 1 invariant #cursors log_cursors_kept(r.raftLog)
+//@   visit 1 invariant #outbox-frame frameexcept("E$*raftpb.Message", old(r.msgs), old(r.msgsAfterAppend)) && frameexcept("F$raftpb.Message")
+//@   visit 1 invariant #reads old(reads_wf(r)) ==> reads_wf(r)
+//@   visit 1 invariant #result ids_of(cs.Voters, cfg.Voters[0]) && ids_of(cs.VotersOutgoing, cfg.Voters[1]) && ids_of(cs.Learners, cfg.Learners) && ids_of(cs.LearnersNext, cfg.LearnersNext)
+//@   visit 1 invariant #config r.trk.Voters[0] == cfg.Voters[0] && r.trk.Voters[1] == cfg.Voters[1] && r.trk.Learners == cfg.Learners && r.trk.LearnersNext == cfg.LearnersNext
+//@        && r.trk.AutoLeave == cfg.AutoLeave && r.trk.MaxInflight == old(r.trk.MaxInflight) && r.trk.MaxInflightBytes == old(r.trk.MaxInflightBytes) && r.trk.Votes == old(r.trk.Votes)
 //@   ensures #reads-kept [C11] old(reads_wf(r)) ==> reads_wf(r)
 //@   ensures #installed [C10] r.trk.Progress == trk && r.trk.Voters[0] == cfg.Voters[0] && r.trk.Voters[1] == cfg.Voters[1] && r.trk.Learners == cfg.Learners
 //@        && r.trk.LearnersNext == cfg.LearnersNext && r.trk.AutoLeave == cfg.AutoLeave && r.isLearner == (has(trk, r.id) && trk[r.id].IsLearner)
-//@   ensures #non-leader-rest old(r.state) != StateLeader ==> raft_kept_but_msgs(r) && r.msgs == old(r.msgs) && r.msgsAfterAppend == old(r.msgsAfterAppend)
-//@        && r.raftLog.committed == old(r.raftLog.committed) && log_last(r.raftLog) == old(log_last(r.raftLog))
-//@   ensures #kept r.trk.MaxInflight == old(r.trk.MaxInflight) && r.trk.MaxInflightBytes == old(r.trk.MaxInflightBytes) && r.trk.Votes == old(r.trk.Votes) && r.raftLog == old(r.raftLog)
-//@   ensures #wf wf_raft(r) && hs_monotone(r) && result != nil
+//@   ensures #non-leader-rest old(r.state) != StateLeader ==> raft_kept_but_isLearner(r) && r.msgs == old(r.msgs) && r.msgsAfterAppend == old(r.msgsAfterAppend)
+//@        && r.raftLog.committed == old(r.raftLog.committed) && log_last(r.raftLog) == old(log_last(r.raftLog)) && r.trk.Votes == old(r.trk.Votes)
+//@   ensures #non-leader-outbox-untouched [C05] old(r.state) != StateLeader ==> allocframe("F$raftpb.Message", "E$*raftpb.Message")
+//@   ensures #removed-leader-steps-down [C10] old(r.state) == StateLeader && !(has(trk, r.id) && !trk[r.id].IsLearner) ==>
+//@        r.Term == old(r.Term) && r.raftLog.committed == old(r.raftLog.committed) && r.msgs == old(r.msgs) && r.msgsAfterAppend == old(r.msgsAfterAppend)
+//@        && (r.stepDownOnRemoval ? r.state == StateFollower && r.lead == 0 : r.state == StateLeader)
+//@   ensures #kept r.trk.MaxInflight == old(r.trk.MaxInflight) && r.trk.MaxInflightBytes == old(r.trk.MaxInflightBytes) && r.raftLog == old(r.raftLog)
+//@        && r.Term == old(r.Term) && r.id == old(r.id) && log_last(r.raftLog) == old(log_last(r.raftLog)) && r.msgsAfterAppend == old(r.msgsAfterAppend)
+//@   ensures #cursors-kept [C08] r.raftLog.applied == old(r.raftLog.applied) && r.raftLog.applying == old(r.raftLog.applying)
+//@   ensures #result-fresh [C13] result != nil && fresh(result)
+//@   ensures #result-voters [C13] ids_of(result.Voters, cfg.Voters[0])
+//@   ensures #result-outgoing [C13] ids_of(result.VotersOutgoing, cfg.Voters[1])
+//@   ensures #result-learners [C13] ids_of(result.Learners, cfg.Learners) && ids_of(result.LearnersNext, cfg.LearnersNext)
+//@   ensures #wf wf_raft(r) && hs_monotone(r)
 
 //@ func raftpb.EnsureConfState
 //@   inline
@@ -1271,11 +1315,12 @@ package raft
 //@   ensures #installed [C09] result ==> old(snapIndex(s) > r.raftLog.committed && r.state == StateFollower && !matchesAt(r.raftLog, snapIndex(s), snapTerm(s)))
 //@        && r.raftLog.committed == old(snapIndex(s)) && log_last(r.raftLog) == old(snapIndex(s)) && log_first(r.raftLog) == old(snapIndex(s)) + 1
 //@        && r.raftLog.unstable.snapshot != nil && snapIndex(r.raftLog.unstable.snapshot) == old(snapIndex(s)) && snapTerm(r.raftLog.unstable.snapshot) == old(snapTerm(s))
-//@   ensures #member-only [C09 C13] result ==> old(s.Metadata != nil && s.Metadata.ConfState != nil) && (inIDs(old(s.Metadata.ConfState.Voters), r.id)
-//@        || inIDs(old(s.Metadata.ConfState.Learners), r.id) || inIDs(old(s.Metadata.ConfState.VotersOutgoing), r.id))
+//@   ensures #member-only [C09 C13] result ==> r.id == old(r.id) && old(s.Metadata != nil && s.Metadata.ConfState != nil && (inIDs(s.Metadata.ConfState.Voters, r.id)
+//@        || inIDs(s.Metadata.ConfState.Learners, r.id) || inIDs(s.Metadata.ConfState.VotersOutgoing, r.id)))
 //@   ensures #limits-kept [C16] r.trk.MaxInflight == old(r.trk.MaxInflight) && r.trk.MaxInflightBytes == old(r.trk.MaxInflightBytes)
 //@   ensures #cursors-kept [C08] r.raftLog.applied == old(r.raftLog.applied) && r.raftLog.applying == old(r.raftLog.applying)
-//@   ensures #follower-kept old(r.state) == StateFollower ==> raft_kept_but_msgs(r) && r.msgs == old(r.msgs) && r.msgsAfterAppend == old(r.msgsAfterAppend)
+//@   ensures #follower-kept old(r.state) == StateFollower ==> raft_kept_but_isLearner(r) && r.msgs == old(r.msgs) && r.msgsAfterAppend == old(r.msgsAfterAppend)
+//@   ensures #outbox-untouched [C05] r.msgs == old(r.msgs) && r.msgsAfterAppend == old(r.msgsAfterAppend) && allocframe("F$raftpb.Message", "E$*raftpb.Message")
 //@   ensures #wf wf_raft(r) && hs_monotone(r)
 //@   loop 1 invariant #not-found !found && 0 <= iter && iter <= 3
 //@   loop 2 invariant #not-found !found && 0 <= iter && iter <= len(set)
@@ -1299,12 +1344,14 @@ package raft
 //@   reveal wf_raftLog
 //@   ensures #reads-kept [C11] old(reads_wf(r)) ==> reads_wf(r)
 //@   ensures #one-deferred-reply [C05] len(r.msgsAfterAppend) == old(len(r.msgsAfterAppend)) + 1 && r.msgs == old(r.msgs)
-//@        && lastDeferred(r).GetType() == pb.MsgAppResp && lastDeferred(r).GetTo() == old(m.GetFrom()) && !lastDeferred(r).GetReject()
+//@   ensures #deferred-reply-type [C05] lastDeferred(r).GetType() == pb.MsgAppResp && !lastDeferred(r).GetReject()
+//@   ensures #deferred-reply-to [C05] lastDeferred(r).GetTo() == old(m.GetFrom())
 //@   after raft.raft.send assert #ack-here [C06 C09] lastDeferred(r).GetIndex() == r.raftLog.committed
 //@   ensures #ack-is-commit [C06 C09] lastDeferred(r).GetIndex() == r.raftLog.committed
 //@   ensures #commit-in-log [C06] r.raftLog.committed <= log_last(r.raftLog)
 //@   ensures #commit-monotone [C07 C09] r.raftLog.committed >= old(r.raftLog.committed)
-//@   ensures #follower-kept [C07] old(r.state) == StateFollower ==> raft_kept_but_msgs(r)
+//@   ensures #follower-kept [C07] old(r.state) == StateFollower ==> raft_kept_but_isLearner(r) && (r.msgs.arr == old(r.msgs.arr) || fresh(r.msgs.arr))
+//@        && (r.msgsAfterAppend.arr == old(r.msgsAfterAppend.arr) || fresh(r.msgsAfterAppend.arr))
 //@   ensures #never-below-snapshot [C09] old(r.state) == StateFollower ==> r.raftLog.committed == old(r.raftLog.committed) || r.raftLog.committed == old(snapIndex(m.Snapshot))
 //@   ensures #wf wf_raft(r) && hs_monotone(r)
 
